@@ -902,3 +902,10 @@ func init() {
 		})(b.S(0))
 	})
 }
+
+func init() {
+	// The bare source itself (NewObservable* built by the harness): identity.
+	opEntry("Bare", NoChain, mmap(func(x, i int) any { return x }), func(b *B) op {
+		return func(s ro.Observable[int]) ro.Observable[int] { return s }
+	}, "NewObservableWithConcurrencyMode", "NewObservable", "NewSafeObservable", "NewUnsafeObservable", "NewEventuallySafeObservable")
+}
